@@ -63,6 +63,47 @@ Proof.
   subst c'. repeat split.
 Qed.
 
+Lemma range_cut_ok_inv c f t c' : range_cut c f t = Ok c' ->
+  (f = p_from c /\ t = p_to c /\ c' = c) \/
+  (~ (f = p_from c /\ t = p_to c) /\ p_from c <= f /\ t <= p_to c /\ f <= t /\ c' = restrict c f t).
+Proof.
+  unfold range_cut.
+  destruct ((p_from c =? f) && (p_to c =? t)) eqn:E1.
+  - intros H; injection H as <-. left. repeat split; try lia.
+  - destruct ((f <? p_from c) || (p_to c <? t)) eqn:E2; [discriminate|].
+    destruct (t <? f) eqn:E3; [discriminate|].
+    intros H; injection H as <-. right. repeat split; lia || reflexivity.
+Qed.
+
+Lemma restrict_restrict2 c f1 t1 f2 t2 : f1 <= f2 -> t2 <= t1 ->
+  restrict (restrict c f1 t1) f2 t2 = restrict c f2 t2.
+Proof.
+  intros Hf Ht. unfold restrict; cbn.
+  rewrite !filter_filter_imp; [reflexivity| |]; intros e; rewrite !in_range_spec; lia.
+Qed.
+
+(* cutting twice is cutting once: a cut of a cut of c is the cut of c itself, so repeated cuts (limitCertSize walks the
+   end block down one by one, AdaptCertificate then cuts again) never lose more than the final range says *)
+Theorem range_cut_compose c f1 t1 c1 f2 t2 c2 :
+  events_in_range c -> range_cut c f1 t1 = Ok c1 -> range_cut c1 f2 t2 = Ok c2 -> range_cut c f2 t2 = Ok c2.
+Proof.
+  intros Hin H1 H2.
+  destruct (range_cut_ok_inv _ _ _ _ H1) as [(-> & -> & ->)|(N1 & A1 & B1 & C1 & ->)]; [exact H2|].
+  destruct (range_cut_ok_inv _ _ _ _ H2) as [(E1 & E2 & ->)|(N2 & A2 & B2 & C2 & ->)]; cbn in *.
+  - subst. exact H1.
+  - rewrite restrict_restrict2 by assumption.
+    destruct (N.eq_dec f2 (p_from c)) as [Ef|Ef]; [destruct (N.eq_dec t2 (p_to c)) as [Et|Et]|].
+    + subst. rewrite range_cut_same. f_equal. symmetry. now apply restrict_self.
+    + unfold range_cut.
+      replace ((p_from c =? f2) && (p_to c =? t2)) with false by lia.
+      replace ((f2 <? p_from c) || (p_to c <? t2)) with false by lia.
+      replace (t2 <? f2) with false by lia. reflexivity.
+    + unfold range_cut.
+      replace ((p_from c =? f2) && (p_to c =? t2)) with false by lia.
+      replace ((f2 <? p_from c) || (p_to c <? t2)) with false by lia.
+      replace (t2 <? f2) with false by lia. reflexivity.
+Qed.
+
 (* when Range succeeds and when it fails *)
 Theorem range_cut_cases c f t :
   (range_cut c f t = Err ENotWithin <-> ~ (f = p_from c /\ t = p_to c) /\ (f < p_from c \/ p_to c < t)) /\
